@@ -10,6 +10,7 @@ import (
 	"testing"
 	"time"
 
+	"github.com/ory/keto/internal/check"
 	"github.com/ory/keto/internal/check/checkgroup"
 	"github.com/ory/keto/internal/driver"
 	"github.com/ory/keto/internal/driver/config"
@@ -750,9 +751,24 @@ func suiteEngine(t *testing.T, cfg cfgT) {
 				if i%2 == 1 {
 					nets = []*env{shadow, ee.e}
 				}
+				// (both runs carry the operation budget, see costBudget: the rows of the other network can make a request
+				// exponentially expensive that is cheap in this one)
+				run := func(e *env, ctx context.Context) (string, bool) {
+					p := &storagePlan{cancelAt: costBudget}
+					cctx, cancel := context.WithCancel(ctx)
+					defer cancel()
+					p.cancel = cancel
+					eng := check.NewEngine(&fDeps{RegistryDefault: e.reg, m: &fManager{Manager: e.reg.RelationTupleManager(), p: p}, t: &fTraverser{Traverser: e.reg.Traverser(), p: p}})
+					r := res(eng.CheckRelationTuple(cctx, its[0], stressRd[i]))
+					return r, p.count() >= costBudget
+				}
 				for _, own := range nets {
-					got := res(c.reg.PermissionEngine().CheckRelationTuple(context.WithValue(bg, netKey{}, own.nid), its[0], stressRd[i]))
-					want := res(own.reg.PermissionEngine().CheckRelationTuple(bg, its[0], stressRd[i]))
+					got, c1 := run(c, context.WithValue(bg, netKey{}, own.nid))
+					want, c2 := run(own, bg)
+					if c1 || c2 {
+						out.stat("enet.costly")
+						continue
+					}
 					v := "same"
 					if got != want {
 						v = fmt.Sprintf("diff shared-registry=%s own-registry=%s", got, want)
